@@ -256,10 +256,21 @@ func cisco() {
 	emit(r)
 	if sc.NeedEnable {
 		send("\nType help or '?' for a list of available commands.\n" + sc.Hostname + ">")
+		prompt = sc.Hostname + ">"
 		line, i := readLine()
 		r := &rec{I: i, Line: line, Class: "login", Mode: mode}
 		gate(i)
-		if !fault(i, line, r, false) {
+		for fault(i, line, r, false) || line != "enable" {
+			// still in user mode: whatever is typed here is echoed and refused
+			if r.Fault == "" {
+				emit(r)
+				send(line + "\n" + rejectText() + prompt)
+			}
+			line, i = readLine()
+			r = &rec{I: i, Line: line, Class: "login", Mode: mode}
+		}
+		prompt = sc.Hostname + "#"
+		{
 			emit(r)
 			send(line + "\n")
 			if sc.EnablePass {
@@ -283,6 +294,15 @@ func cisco() {
 		line, i := readLine()
 		ciscoLine(line, i)
 	}
+}
+
+func execOnly(cmd string) bool {
+	for _, p := range []string{"sh ", "show ", "write ", "term ", "terminal pager", "reload", "configure terminal", "exit"} {
+		if strings.HasPrefix(cmd, p) {
+			return true
+		}
+	}
+	return cmd == ""
 }
 
 var iosPrepare = map[string]bool{"no logging console": true, "line vty 0 15": true,
@@ -319,6 +339,9 @@ func ciscoLine(line string, i int) {
 			r.Class = "confmode"
 		case sc.Type == "asa" && strings.HasPrefix(cmd, "terminal width"):
 			r.Class = "sessionSetting"
+		case execOnly(cmd):
+			// an exec command typed in configuration mode (the device refused to leave it): rejected
+			r.Class = "misplaced"
 		default:
 			r.Class = "change"
 		}
@@ -404,6 +427,8 @@ func ciscoLine(line string, i int) {
 		switch {
 		case cmd == "end":
 			mode = "exec"
+		case r.Class == "misplaced":
+			send(rejectText())
 		case r.Class == "change":
 			changes++
 		}
